@@ -94,6 +94,11 @@ impl<'a> Decoder<'a> {
 
         match container_header & CONTAINER_HEADER_TYPE_MASK {
             SCALAR_CONTAINER_TAG => {
+                // the `Scalar` header has no length, a `JSON` text that starts with
+                // a digit, a minus sign or a quote has the same type bits.
+                if container_header != SCALAR_CONTAINER_TAG {
+                    return Err(Error::InvalidJsonbHeader);
+                }
                 let encoded = self.buf.read_u32::<BigEndian>()?;
                 let jentry = JEntry::decode_jentry(encoded);
                 self.decode_scalar(jentry)
